@@ -10,13 +10,13 @@ use crate::decoder::verif_stubs_dec::*;
 #[kani::unwind(20)]
 #[kani::stub(crate::decoder::LZMADecoder::new, crate::decoder::verif_stubs_dec::verif_havoc_decoder)]
 fn c06b_lzma_header_any13_memlimit() {
-    let src = Src::<18>::any();
+    let mut src = Src::<18>::any(); // kept outside the reader (see lzma_writer.rs: sinks/sources embedded in big structs)
     let b = src.buf;
     let n = src.len;
     let limit: u32 = kani::any();
     let props = b[0];
     let dict = u32::from_le_bytes([b[1], b[2], b[3], b[4]]);
-    let r = LZMAReader::new_mem_limit(src, limit, None);
+    let r = LZMAReader::new_mem_limit(&mut src, limit, None);
     let need = get_memory_usage_by_props(dict, props);
     match r {
         Ok(rd) => {
@@ -80,8 +80,8 @@ fn c06b_lzma_new_any_params() {
     let us: u64 = kani::any();
     let by_props: bool = kani::any();
     let props: u8 = kani::any();
-    let src = Src::<5>::full([0, 0, 0, 0, 0]);
-    let r = if by_props { LZMAReader::new_with_props(src, us, props, dict, None) } else { LZMAReader::new(src, us, lc, lp, pb, dict, None) };
+    let mut src = Src::<5>::full([0, 0, 0, 0, 0]);
+    let r = if by_props { LZMAReader::new_with_props(&mut src, us, props, dict, None) } else { LZMAReader::new(&mut src, us, lc, lp, pb, dict, None) };
     match r {
         Ok(rd) => {
             if !by_props {
@@ -117,8 +117,8 @@ fn c05a_lzma1_truncated_payload() {
     kani::assume(b[1] < 0x40); // code < 2^30: the first is_match bit (prob 1/2) decodes to 0 = literal
     let len: usize = kani::any();
     kani::assume(len == 5 || len == 6);
-    let src = Src::<6>::new(b, len);
-    let rd = LZMAReader::new(src, u64::MAX, 0, 0, 0, 4096, None);
+    let mut src = Src::<6>::new(b, len);
+    let rd = LZMAReader::new(&mut src, u64::MAX, 0, 0, 0, 4096, None);
     assert!(rd.is_ok());
     let mut rd = rd.unwrap();
     let mut out = [0u8; 1];
@@ -129,5 +129,30 @@ fn c05a_lzma1_truncated_payload() {
     }
     kani::cover!(hits > 0, "source ended during the call");
     kani::cover!(hits == 0 && r.is_ok(), "call completed from available bytes");
+    core::mem::forget(rd);
+}
+
+// C06-C2: a read() that failed with a distance error leaves the coder in a match state whose rep0 was never validated;
+// a FURTHER read() on the same reader must return (Ok or Err) - it must not panic while decoding the next symbol.
+//@ {"name":"c06c2_lzma1_read_after_distance_error","props":["C06"],"obligation":"C06-C2","timeout":2400,"mem_gb":13,"functions":["lzma_reader::LZMAReader::read","decoder::LZMADecoder::decode","decoder::LiteralDecoder::decode","decoder::LiteralSubDecoder::decode","lz::lz_decoder::LZDecoder::get_byte","lz::lz_decoder::LZDecoder::repeat"],"bounds":"lc=lp=pb=0, dict 4096, empty dictionary; coder state any non-literal state (7..=11), rep0 any i32 that `repeat` refused (>= filled size), rep1..3 arbitrary; 8 arbitrary compressed bytes; one 1-byte read; unwind 12","assumes":["pre-state = what decode_match + a failing LZDecoder::repeat leave behind (reps[0] is assigned before repeat validates it); fresh probabilities"],"stubs":["LZMADecoder::new -> verif_fresh_decoder"]}
+#[kani::proof]
+#[kani::unwind(12)]
+#[kani::stub(crate::decoder::LZMADecoder::new, crate::decoder::verif_stubs_dec::verif_fresh_decoder)]
+fn c06c2_lzma1_read_after_distance_error() {
+    let mut b: [u8; 8] = kani::any();
+    b[0] = 0;
+    let mut src = Src::<8>::full(b);
+    let rd = LZMAReader::new(&mut src, u64::MAX, 0, 0, 0, 4096, None);
+    assert!(rd.is_ok());
+    let mut rd = rd.unwrap();
+    let st: u8 = kani::any();
+    kani::assume(st >= 7 && st <= 11);
+    let reps: [i32; 4] = kani::any();
+    // the failed repeat: dist >= full (= 0 here); dist is `reps[0] as usize`, so negative values are huge distances
+    verif_set_state(&mut rd.lzma, st, reps);
+    let mut out = [0u8; 1];
+    let r = rd.read(&mut out);
+    kani::cover!(r.is_err(), "second read fails cleanly");
+    kani::cover!(r.is_ok(), "second read returns data");
     core::mem::forget(rd);
 }
